@@ -5,7 +5,7 @@ spec -> code : TLC (-simulate or exhaustive BFS) on spec/TcpConnGen.tla emits be
 code -> spec : the driver records, per connection, the script as performed and what every observer saw; TLC evaluates the
                property layer of spec/TcpConn.tla on those records (spec/TcpConnTrace.tla).  The driver never judges.
 """
-import json, os, re, collections
+import json, os, re, collections, time
 import vlib
 
 ENV = {"Connect", "CSend", "CFin", "CRst", "CPause", "CResume", "TSend", "TFin", "TRst", "TClose", "TPause", "TResume", "Tick",
@@ -241,6 +241,7 @@ def brief(case):
 def run_family(ctx, prefix, behs, *, label, timeout_ms, unit_ms=200, slack=REAL_SLACK, par=8, prom=False, extra=(), confirm=True):
     """Replay `behs`, let TLC judge every connection record, report failing predicates that start with `prefix` as
     violations (after one confirmation re-run of the single behaviour).  Returns (cases, brows, prom totals)."""
+    vlib.log("tcpconn family %s: %d behaviours (t=%.0fs)" % (label, len(behs), time.time() - ctx.t0))
     cases, brows, pr, cmd = replay(ctx, behs, label=label, timeout_ms=timeout_ms, unit_ms=unit_ms, par=par, prom=prom, extra=extra)
     hung = [c for c in cases if c["hung"]]
     bad = judge(ctx, cases, slack, label=label)
@@ -264,7 +265,6 @@ def run_family(ctx, prefix, behs, *, label, timeout_ms, unit_ms=200, slack=REAL_
     for k, members in groups.items():
         if k in done_kinds:
             continue
-        done_kinds.add(k)
         confirmed = None
         for (i, pred, snapi) in members[:4]:
             case = cases[i]
@@ -289,6 +289,7 @@ def run_family(ctx, prefix, behs, *, label, timeout_ms, unit_ms=200, slack=REAL_
             unconfirmed.append("%s failed on %d record(s) in the batch run (e.g. %s) but not when %d of those behaviours were re-run alone: %s" % (
                 pred, len(members), input_class(cases[i]), min(4, len(members)), json.dumps(brief(cases[i]))))
             continue
+        done_kinds.add(k)      # one violation per signature per check run (a signature that could not be confirmed may come again)
         case, beh, pred, snapi = confirmed
         where = "at the end of the run" if snapi == 0 else "before environment step %s of the script" % case["snaps"][snapi - 1]["a"]
         ctx.violation(json.loads(k), "%s: %s [%s; %s] script: %s; observed: %s" % (
